@@ -732,7 +732,9 @@ class ScipyOptimizeDriver(Driver):
                 self._exc_info = sys.exc_info()
             return np.array([[]])
 
-        return grad[0, :]
+        # copy: the total jacobian array is reused by the next call, and optimizers that keep the
+        # previous gradient (quasi-Newton updates) would see it change under them
+        return grad[0, :].copy()
 
     def _congradfunc(self, x_new, name, dbl, idx):
         """
